@@ -2,7 +2,7 @@
 EXTENDS Integers, Sequences, TLC, Json, IOUtils
 CONSTANTS Vouchers, BackDenoms, HookReturnsAck
 Trace == ndJsonDeserialize(IOEnv.TRACE_FILE)
-VARIABLES l, enabled, vbal, esc, sup, tok, registered, pairon, ext, xreg, xbad, mx, out, nesc, last,
+VARIABLES l, enabled, vbal, esc, sup, tok, registered, pairon, ext, xreg, xbad, mx, out, nesc, xdead, last,
           nbal,   \* the receiver's balance of this chain's own coin (units)
           gOn, gPair   \* ground truth kept by the trace: what governance set the module switch to, and the per-pair switch as its proposals left it
 AmtClasses == {}
@@ -10,7 +10,7 @@ RecvClasses == {}
 NatMax == 0
 INSTANCE ICS20
 ln(k) == Trace[k]
-TInit == l = 0 /\ enabled = TRUE /\ vbal = <<>> /\ esc = <<>> /\ sup = <<>> /\ tok = <<>> /\ registered = <<>> /\ pairon = <<>> /\ ext = <<>> /\ xreg = FALSE /\ xbad = FALSE /\ mx = 0 /\ out = <<>> /\ nesc = 0 /\ nbal = 0 /\ gOn = TRUE /\ gPair = [d \in Vouchers |-> FALSE] /\ last = [act |-> "None", res |-> "ok"]
+TInit == l = 0 /\ enabled = TRUE /\ vbal = <<>> /\ esc = <<>> /\ sup = <<>> /\ tok = <<>> /\ registered = <<>> /\ pairon = <<>> /\ ext = <<>> /\ xreg = FALSE /\ xbad = FALSE /\ mx = 0 /\ out = <<>> /\ nesc = 0 /\ xdead = FALSE /\ nbal = 0 /\ gOn = TRUE /\ gPair = [d \in Vouchers |-> FALSE] /\ last = [act |-> "None", res |-> "ok"]
 Report(k, name, holds) == holds \/ PrintT(<<"VIOL", k, name>>)
 IsStep(k) == ln(k).ev # "Reset"
 A(k) == ln(k).args
@@ -66,6 +66,7 @@ C_Step(k) ==
     [] ln(k).ev = "AddExt" -> AddExtEff(D(k)) /\ (ln(k).res = "ok") = AddExtOK(D(k))
     [] ln(k).ev = "Fund" -> FundEff(A(k).n)
     [] ln(k).ev = "SendBack" -> SendBackEff(D(k), A(k).amt) /\ (ln(k).res = "ok") = SendBackOK(D(k), A(k).amt)
+    [] ln(k).ev = "DestroyExt" -> DestroyExtEff
     [] ln(k).ev = "SendNat" -> SendNatEff(A(k).amt) /\ (ln(k).res = "ok") = SendNatOK(A(k).amt)
     [] ln(k).ev = "RecvNat" -> RecvNatEff(A(k).amt, A(k).recv) /\ ln(k).wrapped_success = NatTransferOK(A(k).amt, A(k).recv)
     [] ln(k).ev = "Settle" -> SettleEff(D(k), A(k).outcome) /\ (ln(k).res = "ok") = SettleOK(D(k))
@@ -76,6 +77,7 @@ TNext == LET k == l + 1 IN
   /\ l < Len(Trace) /\ l' = k
   /\ enabled' = ln(k).st.enabled /\ vbal' = F(k, "vbal") /\ esc' = F(k, "esc") /\ sup' = F(k, "sup") /\ tok' = F(k, "tok")
   /\ registered' = F(k, "registered") /\ pairon' = F(k, "pairon") /\ ext' = F(k, "ext") /\ xreg' = ln(k).st.xreg /\ xbad' = ln(k).st.xbad /\ mx' = ln(k).st.mx /\ out' = F(k, "out") /\ nesc' = ln(k).st.nesc /\ nbal' = ln(k).st.nbal
+  /\ xdead' = IF ln(k).ev = "Reset" THEN FALSE ELSE IF ln(k).ev = "DestroyExt" THEN TRUE ELSE xdead      \* what the replay did to the contract
   /\ last' = [act |-> ln(k).ev, res |-> ln(k).res]
   /\ gOn' = IF ln(k).ev = "Reset" THEN TRUE ELSE IF ln(k).ev = "Param" /\ ln(k).res = "ok" THEN ln(k).args.on ELSE gOn
   /\ gPair' = IF ln(k).ev = "Reset" THEN [d \in Vouchers |-> FALSE]
